@@ -420,12 +420,18 @@ def cli_batch(res):
                          'file+keep_all': ['--keep-names-from-file', c01.keep_file_path(), '--keep-all-names']}[config]
                 both = config not in c01.CONFIGS
                 path = os.path.join(d, 'm%d.p8' % n)
-                p8file.to_file(carts.make_game({}, version=33, code_lines=[src]), path)
                 luaf = os.path.join(d, 'b%d.lua' % n)
                 open(luaf, 'wb').write(src)
                 outp = os.path.join(d, 'b%d.p8' % n)
                 pathpng = os.path.join(d, 'm%d.p8.png' % n)
-                p8file.to_file(carts.make_game({}, version=33, code_lines=[src]), pathpng)
+                try:
+                    p8file.to_file(carts.make_game({}, version=33, code_lines=[src]), path)
+                    p8file.to_file(carts.make_game({}, version=33, code_lines=[src]), pathpng)
+                except Exception as e:
+                    res.evaluations += 1
+                    res.violation('C02|cli|input-cart-raise|%s' % type(e).__name__, 'the valid program %r cannot be saved as a cart: %r' % (src, e),
+                                  {'src': src, 'config': config, 'cli': 'luamin'})
+                    continue
                 outpng = os.path.join(d, 'b%d.p8.png' % n)
                 for what, args, result in (('luamin', ['luamin'] + flags + [path], os.path.join(d, 'm%d_fmt.p8' % n)),
                                            ('build', ['build', outp, '--lua', luaf, '--lua-minify'] + flags, outp),
